@@ -128,6 +128,11 @@ def child(env_hash, prior, tasks):
 
 def run(ctx):
     ctx.prove()
+    import translate_rngflow as T
+    ctx.gen_step("rngflow", T.translate, "C17_gen",
+                 "harness/translate_rngflow.py (ast -> control skeleton of every function of the routing-problem package: calls into "
+                 "np.random.* / .rvs(..), calls, branches, loops, try; name resolution, semantics and the discipline check are Coq "
+                 "definitions in theories/PyRng.v)")
     ctx.assumptions += [
         "numpy's global generator, process boundaries and hash randomisation are runtime behaviour: observed on sampled environments, not proved",
         "np.random.seed(z) with an explicit z forgets the previous state (the only law assumed of the oracle in the theorems)",
